@@ -484,8 +484,8 @@ func checkMinMax(w *World, r *Report, rule string, fn *ssa.Function) {
 						if !ok || !f.Truth {
 							continue
 						}
-						if bo.Op == wantOp && bo.X == e {
-							if _, isPhi := bo.Y.(*ssa.Phi); isPhi {
+						if x, y, okc := orientCmp(bo, wantOp); okc && x == e {
+							if _, isPhi := y.(*ssa.Phi); isPhi {
 								under = true
 							}
 						}
